@@ -340,9 +340,13 @@ def presentations(net, full):
 def run_unit(unit):
     kind, items = unit
     res = new_result()
+    nhang = 0
     for it in items:
+        if nhang >= 3:
+            res["caps"].append({"unit": kind, "cap": "3 items exceeded 20 s; rest of the unit skipped"})
+            break
         try:
-            with case_timeout(600):
+            with case_timeout(20 if kind == "sanitize" else 600):
                 if kind == "sanitize":
                     spec, names = it
                     net = U.resolve(spec)
@@ -378,7 +382,8 @@ def run_unit(unit):
                             res["violations"].append(V(o, case, f"{net!r} flips={flips} names={scheme} style={style} format={fmt}: {d}",
                                                        site=f"{scheme}/{style}/{fmt}/{'flip' if flips else 'noflip'}"))
         except CaseTimeout:
-            res["hangs"].append({"case": {"item": repr(it)}, "why": "exceeded 600 s"})
+            nhang += 1
+            res["hangs"].append({"case": {"item": repr(it)}, "why": "exceeded its soft time limit"})
     best = {}
     for v in res["violations"]:
         k = (v["oracle"], v["site"])
